@@ -120,7 +120,7 @@ class Adapter:
         ctx = materialise.lang_ctx(L, key=lang)
         ab = case['abs']
         res = {'steps': 0, 'div': [], 'features': []}
-        if case['hist'] and case['hist'][-1]['act']['res'] == 'collide':
+        if case.get('hist') and case['hist'][-1]['act']['res'] == 'collide':
             return res
         key = lang + json.dumps(ab, sort_keys=True)
         if key in self.seen:
